@@ -788,6 +788,16 @@ func (rs *s3ClientStorage) CopyObject(ctx context.Context, srcBucket storage.Buc
 		if opts.StorageClass != nil {
 			input.StorageClass = types.StorageClass(*opts.StorageClass)
 		}
+		// Tags follow the tagging directive: REPLACE installs the supplied tag
+		// set (possibly empty), COPY (the default) keeps the source's tags.
+		if opts.ReplaceTags {
+			input.TaggingDirective = types.TaggingDirectiveReplace
+			values := url.Values{}
+			for k, v := range opts.Tags {
+				values.Set(k, v)
+			}
+			input.Tagging = aws.String(values.Encode())
+		}
 		input.CopySourceIfMatch = opts.CopySourceConditions.IfMatch
 		input.CopySourceIfNoneMatch = opts.CopySourceConditions.IfNoneMatch
 		input.CopySourceIfModifiedSince = opts.CopySourceConditions.IfModifiedSince
